@@ -884,6 +884,10 @@ class EEA:
             e = self.merge(e, self.expr(ce, st))
             if isinstance(ce, ast.Call):
                 fact = self.prog.call_fact(fr.module, ce)
+                if fact and fact[0] in S.CM_EXIT_RAISES:
+                    for exc_ in S.CM_EXIT_RAISES[fact[0]]:
+                        self.obligations += 1
+                        e = self.merge(e, self._one(exc_, self.site(fr, ce, "with-exit", f"leaving `with {norm(ce)[:50]}`"), fr))
                 if fact and fact[0] == "contextlib.suppress":
                     for a in ce.args:
                         fn = self.exc_class_of(a, fr)
@@ -1291,6 +1295,9 @@ class EEA:
             return self._one(S.KE, self.site(fr, e, "subscript"), fr)
         if bt.startswith(("builtins.list", "list[", "builtins.str", "str", "builtins.bytes")):
             k = e.slice.value if isinstance(e.slice, ast.Constant) and isinstance(e.slice.value, int) else -e.slice.operand.value if isinstance(e.slice, ast.UnaryOp) and isinstance(e.slice.op, ast.USub) and isinstance(e.slice.operand, ast.Constant) and isinstance(e.slice.operand.value, int) else None
+            if k in (0, -1) and ("nonempty", base_txt) in st.facts:
+                self.discharged.append({"site": self.site(fr, e, "subscript").loc(), "what": f"{base_txt}[{key_txt}]", "by": f"non-empty guard on {base_txt} dominates with no suspension / mutation in between"})
+                return {}
             if k is not None and bt.startswith(("builtins.list", "list[")):
                 need = k + 1 if k >= 0 else -k
                 have = self.min_split_len(fr.func, e.value, 0)
@@ -1401,6 +1408,27 @@ class EEA:
         if isinstance(it, (ast.GeneratorExp, ast.ListComp)) and len(it.generators) == 1:
             return self.min_count(f, it.elt, ch, depth + 1)
         return 0
+
+    def _nonempty_enum(self, m: Module, e: ast.expr, depth: int) -> bool:
+        """e denotes an enum class that has members: a class name, a module constant bound to one, or
+        `get_protocol(<constant version>).<Enum>`."""
+        if depth > 3:
+            return False
+        I = self.I
+        if isinstance(e, ast.Name):
+            d = self.prog.resolve_name(m, e.id)
+            if d is not None and d.kind == "class":
+                return I.folder.is_enum(d.obj) and bool(I.folder.enum_values(d.obj))
+            if d is not None and d.kind == "const":
+                return self._nonempty_enum(d.module, d.obj, depth + 1)
+            return False
+        if isinstance(e, ast.Attribute) and isinstance(e.value, ast.Call) and norm(e.value.func).endswith("get_protocol") and len(e.value.args) == 1:
+            try:
+                ver = I.folder.plain(I.folder.fold(m, e.value.args[0]))
+                return ver in I.versions and bool(I.folder.enum_values(I.vclass(ver, e.attr)))
+            except Exception:  # noqa: BLE001
+                return False
+        return False
 
     def _iterates_schema_fields(self, name: ast.Name) -> bool:
         cur = self.prog.parents.get(name)
@@ -1665,6 +1693,16 @@ class EEA:
         if schema is not None and init is not None and any(d in ("post_load",) or d.startswith("post_load") for d in f.decorator_names):
             fields = self.schema_field_names(schema)
             params = set(init.params[1:])
+            # the mapping holds only declared fields as long as unknown keys are refused or dropped (marshmallow's
+            # default is RAISE); with Meta.unknown = INCLUDE any key of the input reaches the constructor
+            unknown_opt = None
+            for c_ in schema.repo_mro():
+                meta = c_.nested_classes.get("Meta")
+                if meta is not None and "unknown" in meta.attrs:
+                    unknown_opt = norm(meta.attrs["unknown"]).rsplit(".", 1)[-1]
+                    break
+            if unknown_opt is not None and unknown_opt.upper() not in ("RAISE", "EXCLUDE", "'RAISE'", "'EXCLUDE'"):
+                return self._one(S.TE, self.site(fr, e, "kwargs-unpack", f"{norm(e)} with Meta.unknown = {unknown_opt}: keys that are not parameters of {t.cls.name}.__init__ reach the constructor"), fr)
             if fields is not None and set(fields) <= params:
                 self.discharged.append({"site": self.site(fr, e, "kwargs").loc(), "what": norm(e), "by": f"schema fields {sorted(fields)} are parameters of {t.cls.fq}.__init__"})
                 return {}
@@ -1780,6 +1818,9 @@ class EEA:
             if len(e.args) > 1 or any(kw.arg == "default" for kw in e.keywords):
                 return True
             a = norm(e.args[0])
+            if self._nonempty_enum(fr.module, e.args[0], 0):
+                self.discharged.append({"site": self.site(fr, e, "call").loc(), "what": norm(e), "by": "the argument is an enum class with members"})
+                return True
             if ("nonempty", a) in st.facts:
                 self.discharged.append({"site": self.site(fr, e, "call").loc(), "what": norm(e), "by": f"non-empty guard on {a}"})
                 return True
